@@ -5,7 +5,9 @@ No theorem can quantify over Rust schedules. What is logic is stated here:
  (a) the whole-source inventory regenerated from /repo/src on every run (`Generated/Inventory.lean`:
      occurrences, in non-test code with comments and literals stripped, of `static mut`, `thread_local!`,
      `unsafe`, Cell/RefCell/UnsafeCell/OnceCell, Atomic*, Mutex/RwLock/Once/Lazy*, Rc, raw pointers,
-     `env`, `static` items, PhantomData / negative impls) is EMPTY, and the ambient calls are exactly the
+     `env`, `static` items, PhantomData / negative impls, randomised hashers, current-directory calls) is
+     EMPTY, every string literal that is a file-system path is absolute (a relative one is resolved against
+     the process' current directory, which is process-global mutable state), and the ambient calls are exactly the
      clock read in `utils/system_time.rs` and `std::fs` in the default reader of `timezone/mod.rs`;
  (b) the model of every operation is a pure function: the driver's state is only the "current zone" of
      the line protocol, so any interleaving of calls yields, per call, the sequential answer — its
@@ -27,6 +29,9 @@ theorem no_forbidden_construct : inventoryForbidden = [] := by decide
 
 /-- the only ambient inputs are the system clock and the injectable file reader's default -/
 theorem ambient_calls_are_the_two_documented_ones : ∀ a ∈ inventoryAmbient, a ∈ allowedAmbient := by decide
+
+/-- no path literal is relative to the current directory -/
+theorem path_literals_are_absolute : ∀ p ∈ inventoryPathLiterals, p.2.2 = 1 := by decide
 
 /-- the scan saw every source file of the crate (17 files; a new file must be looked at) -/
 theorem all_files_scanned : inventoryFiles = 17 := by decide
